@@ -70,7 +70,7 @@ func vfC15GenCfg(t *rapid.T) vfC15CfgScenario {
 	return s
 }
 
-func vfC15UseConfig(c *vt.Ctx, cfg *Config) {
+func vfC15UseConfig(c g.Sink, cfg *Config) {
 	cfg.Populate()
 	verr := cfg.Validate()
 	_ = cfg.GetSecurityGroups()
@@ -96,7 +96,7 @@ func vfC15UseConfig(c *vt.Ctx, cfg *Config) {
 	}
 }
 
-func vfC15RunCfg(c *vt.Ctx, s vfC15CfgScenario) {
+func vfC15RunCfg(c g.Sink, s vfC15CfgScenario) {
 	c.Label("kind:" + s.Kind)
 	c.Label("via:" + s.Via)
 	var base, top []byte
@@ -153,4 +153,4 @@ func vfC15RunCfg(c *vt.Ctx, s vfC15CfgScenario) {
 	vfC15UseConfig(c, cfg)
 }
 
-func TestVerifC15DaemonConfig(t *testing.T) { vt.Run(t, vfC15GenCfg, g.NoPanic(vfC15RunCfg)) }
+func TestVerifC15DaemonConfig(t *testing.T) { vt.Run(t, vfC15GenCfg, g.NoPanic(g.Adapt(vfC15RunCfg))) }
